@@ -1,9 +1,58 @@
-(* C12 — theorems are added below as the proofs are completed; see DESIGN.md *)
-From Coq Require Import List Arith Bool.
+(* C12 — 3-D group results sit at the position of their signal.
+   Model: Model/Group.v; sigs is n0 rows of n1 signals (all shapes, including n0 <> n1 and
+   size-1 dimensions); epochs : K -> list Sg -> list T is the flattened-epoch analysis of one
+   2-D slice (abstract, one result per row of the slice).  No axioms. *)
+From Coq Require Import List Arith Bool Permutation.
 Import ListNotations.
-From ByC Require Import Base.Result Model.Group.
+From ByC Require Import Base.Result Model.Group Proofs.Group.
 
-Theorem C12_placeholder_unordered_is_identity_schedule_only : forall (A R : Type) (f : A -> R) xs d,
-  pool_imap_unordered (seq 0 (length xs)) f xs d = map (fun i => f (nth i xs d)) (seq 0 (length xs)).
-Proof. reflexivity. Qed.
-Print Assumptions C12_placeholder_unordered_is_identity_schedule_only.
+(* axis = (0,1): entry [i][j] is the analysis of signal [i,j] with the option set at [i][j] (row-major) *)
+Theorem C12_axis01_entry_ij_is_signal_ij : forall (K Sg T : Type) (cf : K -> Sg -> T) (dK : K) (dS : Sg) (dT : T)
+  (sigma : list nat) (spec : kwspec) (sigs : list (list Sg)) (n1 i j : nat),
+  Permutation sigma (seq 0 (length (concat sigs))) ->
+  (forall row, In row sigs -> length row = n1) ->
+  i < length sigs -> j < n1 ->
+  nth j (nth i (group3d_axis01 cf dK dS dT sigma spec sigs n1) []) dT =
+  cf (kw_for dK spec (i * n1 + j)) (nth j (nth i sigs []) dS).
+Proof. exact @group3d_axis01_spec. Qed.
+Print Assumptions C12_axis01_entry_ij_is_signal_ij.
+
+(* axis = 0: row i is the flattened-epoch analysis of sigs[i] with the i-th option set *)
+Theorem C12_axis0_row_i_is_slice_i : forall (K Sg T : Type) (epochs : K -> list Sg -> list T) (dK : K)
+  (sigma : list nat) (spec : kwspec) (sigs : list (list Sg)) (i : nat),
+  Permutation sigma (seq 0 (length sigs)) -> i < length sigs ->
+  nth i (group3d_axis0 epochs dK sigma spec sigs) [] = epochs (kw_for dK spec i) (nth i sigs []).
+Proof. exact @group3d_axis0_nth. Qed.
+Print Assumptions C12_axis0_row_i_is_slice_i.
+
+(* axis = 1: column j is the flattened-epoch analysis of sigs[:, j] with the j-th option set *)
+Theorem C12_axis1_column_j_is_slice_j : forall (K Sg T : Type) (epochs : K -> list Sg -> list T) (dK : K) (dS : Sg) (dT : T)
+  (sigma : list nat) (spec : kwspec) (sigs : list (list Sg)) (n1 i j : nat),
+  Permutation sigma (seq 0 n1) ->
+  (forall row, In row sigs -> length row = n1) ->
+  (forall k sl, length (epochs k sl) = length sl) ->
+  i < length sigs -> j < n1 ->
+  nth j (nth i (group3d_axis1 epochs dK dS dT sigma spec sigs n1) []) dT =
+  nth i (epochs (kw_for dK spec j) (map (fun row => nth j row dS) sigs)) dT.
+Proof. exact @group3d_axis1_spec. Qed.
+Print Assumptions C12_axis1_column_j_is_slice_j.
+
+(* the nested list has the array's first two dimensions *)
+Theorem C12_axis1_shape : forall (K Sg T : Type) (epochs : K -> list Sg -> list T) (dK : K) (dS : Sg) (dT : T)
+  (sigma : list nat) (spec : kwspec) (sigs : list (list Sg)) (n1 : nat),
+  length (group3d_axis1 epochs dK dS dT sigma spec sigs n1) = length sigs.
+Proof. exact @group3d_axis1_length. Qed.
+Print Assumptions C12_axis1_shape.
+
+Theorem C12_models_mirror : forall (Sg T : Type) (dS : Sg) (dT : T) (dfs : list (list T)) (sigs : list (list Sg)) (i j : nat),
+  i < length sigs -> j < length (nth i sigs []) ->
+  nth j (nth i (models3d dS dT dfs sigs) []) (dT, dS) = (nth j (nth i dfs []) dT, nth j (nth i sigs []) dS).
+Proof. exact @models3d_spec. Qed.
+Print Assumptions C12_models_mirror.
+
+(* Legacy: the back-indexing used before the repair (df_2d[i + j]) is refuted on a 2 x 2 array *)
+Theorem C12_legacy_index_refuted :
+  nth 0 (nth 1 (group3d_axis01_legacy id_cf 0 0 (0, 0, 0) [0; 1; 2; 3] (KwOne 7) (sig_ids 2 2) 2) []) (0, 0, 0)
+  <> id_cf 7 (nth 0 (nth 1 (sig_ids 2 2) []) 0).
+Proof. exact group3d_axis01_legacy_refuted. Qed.
+Print Assumptions C12_legacy_index_refuted.
